@@ -42,8 +42,8 @@ META = {
               "start-at-idle instant, accept-iff-bytes-fit (incl. limit 0), delivery-time formula and zero-jitter order are proved for all metrics, sizes and interleavings. "
               "Tied to the code by replaying thousands of real two-module simulations (probe, is_busy, finish time, Debug queue sizes, arrival times/order) through the same definitions."),
         design_ref="DESIGN.md §5 C07",
-        note=("Trusted: as C01; f64 rounding of calculate_busy/calculate_duration is an input (tx read from the code, checked +-1ns; jitter only range-checked); usize/SimTime overflow out of scope. "
-              "The kernel tie rule for the channel's own events is part of the model (kmin); zero_jitter_dispatch_order is proved at full strength. Model mirrors the code after the F5 and F14 fixes "
+        note=("Trusted: as C01; f64 rounding of calculate_busy/calculate_duration is an input (tx read from the code, checked +-1ns; jitter sample only range-checked: 0 <= j < jitter, j = 0 without jitter); usize/SimTime overflow out of scope. "
+              "The kernel tie rule for the channel's own events is part of the model (kmin); zero_jitter_dispatch_order is proved at full strength. Model mirrors the code after the F5, F14 and F16 fixes "
               "(unbusy drains zero-time messages; exit event scheduled before the unbusy notification)."),
         technique=_T),
     "C16": dict(
